@@ -384,48 +384,55 @@ def kept_tail_ok(dv, r, marker, marker_expr):
     if tst not in (f"{dv.buf}.endswith({lit}[:{var}])", f"{lit}[:{var}] == {dv.buf}[-{var}:]", f"{dv.buf}[-{var}:] == {lit}[:{var}]"):
         return None
     slice_form = "endswith" not in tst  # buf[-n:] == M[:n]: for n == 0 it compares the whole buffer with b"" (false on a non-empty buffer)
-    # the bounds: constant expressions in which min(len(buf), H) (either order) stands for H - candidates longer than the buffer never match
+    # the bounds: `min(len(buf), H)` (either order) plus / minus constants, or plain constants; evaluated for every buffer length L up to the
+    # marker's (a bound that depends on the buffer length can lose the one candidate that is the whole short buffer)
     def bound(x):
         if isinstance(x, ast.Call) and unparse(x.func) == "min" and len(x.args) == 2 and not x.keywords:
             for a, b in ((x.args[0], x.args[1]), (x.args[1], x.args[0])):
                 if unparse(a) == f"len({dv.buf})" and _const_int(b) is not None:
-                    return _const_int(b)
+                    return (_const_int(b), 0)
             return None
         if isinstance(x, ast.BinOp) and isinstance(x.op, (ast.Add, ast.Sub)):
             l_, r_ = bound(x.left), bound(x.right)
-            if l_ is None or r_ is None:
+            if l_ is None or r_ is None or (l_[0] is not None and r_[0] is not None) or (r_[0] is not None and isinstance(x.op, ast.Sub)):
                 return None
-            return l_ + r_ if isinstance(x.op, ast.Add) else l_ - r_
-        return _const_int(x)
-    H, lo_v = bound(hi), bound(lo)
-    if H is None or lo_v is None:
+            sign = 1 if isinstance(x.op, ast.Add) else -1
+            return (l_[0] if l_[0] is not None else r_[0], l_[1] + sign * r_[1])
+        c_ = _const_int(x)
+        return None if c_ is None else (None, c_)
+    bh, bl = bound(hi), bound(lo)
+    if bh is None or bl is None:
         return None
-    if slice_form and not any("min(" in unparse(x) for x in (hi, lo)):
+    if slice_form and bh[0] is None and bl[0] is None:
         return None  # buf[-n:] with n beyond the buffer is the whole buffer: only the endswith form is indifferent to the bound
     L = len(marker)
-    cand = list(range(H, lo_v, step_v))
-    for k in range(0, L):
-        # the buffer's longest suffix that is a proper prefix of the marker has length k
-        def matches(n):
-            if n == 0:
-                return not slice_form
-            m = marker[:n]  # Python's own slicing rule for negative / oversized n
-            if len(m) >= L:
-                return False  # the whole marker at the end: excluded, the search would have found it
-            if n < 0 and slice_form:
-                return None
-            return len(m) <= k and marker[:k].endswith(m)
-        res = 0
-        for n in cand:
-            mt = matches(n)
-            if mt is None:
-                return None
-            if mt:
-                res = n
-                if has_break:
-                    break
-        if res != k:
-            return False
+
+    def at(b_, buflen):
+        return (min(buflen, b_[0]) if b_[0] is not None else 0) + b_[1]
+    for buflen in range(0, L + 2):
+        cand = list(range(at(bh, buflen), at(bl, buflen), step_v))
+        for k in range(0, min(buflen, L - 1) + 1):
+            # the buffer's longest suffix that is a proper prefix of the marker has length k
+            def matches(n):
+                if n == 0:
+                    return not slice_form
+                m = marker[:n]  # Python's own slicing rule for negative / oversized n
+                if len(m) >= L or len(m) > buflen:
+                    return False  # the whole marker at the end is excluded (the search would have found it); more than the buffer holds
+                if n < 0 and slice_form:
+                    return None
+                return len(m) <= k and marker[:k].endswith(m)
+            res = 0
+            for n in cand:
+                mt = matches(n)
+                if mt is None:
+                    return None
+                if mt:
+                    res = n
+                    if has_break:
+                        break
+            if res != k:
+                return False
     return True
 
 
